@@ -602,9 +602,9 @@ func init() {
 		ID:        "C10",
 		Inst:      true,
 		Technique: "exhaustive operation histories over several schema/rule/regex/document objects, each executed under every sync.Pool answer within a deviation bound with a scribbling pool model; every retained result is re-read after every step and compared with its snapshot and with the result of the same call made first in a brand-new process",
-		Rule:      "alphabet: 50 symbols = {Check, Example, GetAST, OpenAPI, Dereference, Len, UsedUserTypes} x 6 schema projects (deep valid with types, one with every rule kind the converter handles, shallow valid, fails in scanner, fails in rule loader, fails in checker) + enum rule {Check, Values, Len, GetAST} + regex {Check, Example, Len} + JSON document {Check, Len, lexeme stream}; JSON document objects (12 texts, with and without the trailing-characters option) under every sequence of <=3 steps from {read 1, read 3, drain, Len, Check}: Len/Check results and the stream read from a rewound object equal those of a fresh object; repeated symbols act on the already used object; quick: all histories of length <=2 and those of length 3 that start with one of 13 disturbers (a load that breaks off inside a literal, a refused registration, a load that fails in the rule loader, pool users, an oversized result, a twin project, a long informer list); thorough: all of length <=4; pool answers: default (most recent), any older item, New(), <=1 (thorough 2) deviations; pooled buffers are overwritten with 0xEE when put back; non-trivial = histories with more than one explored pool environment",
+		Rule:      "alphabet of about 100 symbols (the exact number is in bounds) = {Check, Example, GetAST, OpenAPI, Dereference, Len, UsedUserTypes, caller writes, refused registrations} x 13 schema projects (deep valid with types, one with every rule kind the converter handles, shallow valid, fails in scanner, fails in rule loader, fails in checker, scalar root, reference to a scalar type, comment-only text, two twins with equal values spelled differently, one with results of 18 KiB, one with a list of seven informers) + enum rule {Check, Values, Len, GetAST} + regex {Check, Example, Len} + JSON document {Check, Len, lexeme stream}; JSON document objects (12 texts, with and without the trailing-characters option) under every sequence of <=3 steps from {read 1, read 3, drain, Len, Check}: Len/Check results and the stream read from a rewound object equal those of a fresh object; repeated symbols act on the already used object; quick: all histories of length <=2 and those of length 3 that start with one of 13 disturbers (a load that breaks off inside a literal, a refused registration, a load that fails in the rule loader, pool users, an oversized result, a twin project, a long informer list); thorough: all of length <=3 and those of length 4 whose first two symbols are disturbers; pool answers: default (most recent), any older item, New(), <=1 deviation; pooled buffers are overwritten with 0xEE when put back; non-trivial = histories with more than one explored pool environment",
 		Bounds: func(tier string) map[string]any {
-			return map[string]any{"history_length": map[string]int{"quick": 3, "thorough": 4}[tier], "pool_deviations": map[string]int{"quick": 1, "thorough": 2}[tier], "symbols": len(c10Alphabet())}
+			return map[string]any{"history_length": map[string]int{"quick": 3, "thorough": 4}[tier], "pool_deviations": 1, "symbols": len(c10Alphabet())}
 		},
 		Run: func(w *core.W) {
 			refs := c10References(w)
@@ -618,12 +618,13 @@ func init() {
 			alpha := c10Alphabet()
 			L := 3
 			bound := 1
-			if w.Thorough() {
-				L, bound = 4, 1
-			}
-			var i int64
+			var i, own int64
+			stop := false
 			var rec func(h []c10Sym)
 			rec = func(h []c10Sym) {
+				if stop {
+					return
+				}
 				if len(h) > 0 {
 					i++
 					if w.Mine(i) {
@@ -631,9 +632,14 @@ func init() {
 						if i%9001 == 1 {
 							w.Sample(fmt.Sprint(h))
 						}
+						// (polled on the shard's own histories; once over, everything stops)
+						if own++; own&0x3f == 0 && w.OverBudget() {
+							stop = true
+							return
+						}
 					}
 				}
-				if len(h) == L || (i&0xff == 0 && w.OverBudget()) {
+				if len(h) == L {
 					return
 				}
 				for _, s := range alpha {
@@ -655,7 +661,16 @@ func init() {
 				}
 				return
 			}
+			// thorough tier: every history of length <= 3; of length 4 those whose first two
+			// symbols are disturbers (all of length 4 over this alphabet would be 10^8 histories)
+			L = 3
 			rec(nil)
+			L = 4
+			for _, d1 := range c10Disturbers {
+				for _, d2 := range c10Disturbers {
+					rec([]c10Sym{d1, d2})
+				}
+			}
 			if w.Shard == 0 {
 				w.Count("histories", i)
 			}
